@@ -147,6 +147,8 @@ type caseT struct {
 	From      int    `json:"from,omitempty"`
 	To        int    `json:"to,omitempty"`
 	Companion bool   `json:"companion,omitempty"`
+	// Kind "grow": the registry of To reports {companion}, then {companion, To} (a member joins while the
+	// others stay as they are), then the same list again (a true no-op).
 	// Kind "rules": Rules are the initial states of the four DestinationRules (rules_test.go), RuleOps
 	// the moves (level, new state); DR / Fl / Ft are not used (plain service, default switches).
 	Rules   []int    `json:"rules,omitempty"`
@@ -165,6 +167,9 @@ func (c caseT) String() string {
 	a := alphabet()
 	if c.Kind == "pair" {
 		return s + fmt.Sprintf("pair %s -> attributes of %s companion=%v", a[c.From].Name, a[c.To].Name, c.Companion)
+	}
+	if c.Kind == "grow" {
+		return s + fmt.Sprintf("grow {companion} -> {companion,%s} -> same again", a[c.To].Name)
 	}
 	var n []string
 	for _, i := range c.Set {
@@ -237,6 +242,16 @@ func script(c caseT, alpha []epSpec) []stepT {
 		return []stepT{
 			{Name: "first-report", Ops: []opT{{Kind: opReport, Shard: from.Shard, Eps: r1}}},
 			{Name: "re-report-changed", Ops: []opT{{Kind: opReport, Shard: from.Shard, Eps: r2}}},
+		}
+	}
+	if c.Kind == "grow" {
+		to := alpha[c.To]
+		comp := alpha[0]
+		comp.Name, comp.Addr, comp.Shard = "companion", "10.3.0.1", to.Shard
+		return []stepT{
+			{Name: "first-report", Ops: []opT{{Kind: opReport, Shard: to.Shard, Eps: []epSpec{comp}}}},
+			{Name: "member-joins", Ops: []opT{{Kind: opReport, Shard: to.Shard, Eps: []epSpec{comp, to}}}},
+			{Name: "re-reported-unchanged", Ops: []opT{{Kind: opReport, Shard: to.Shard, Eps: []epSpec{comp, to}}}},
 		}
 	}
 	var set []epSpec
@@ -371,6 +386,12 @@ func (r *runner) runCase(c caseT) (nontrivial bool) {
 					pushType = pt
 				}
 				w.Reports[op.Shard] = op.Eps
+				// the index holds the registry's latest report (whatever the push decision was)
+				if got, want := storedReport(e.idx, op.Shard), reportSig(op.Eps); got != want {
+					r.res.Violate("index-lost-latest-report|after="+st.Name+"|push="+pushTypeName[pt],
+						fmt.Sprintf("%s; after step %q registry %d reported [%s] (push decision %s) but the endpoint index holds [%s] for it",
+							c, st.Name, op.Shard, want, pushTypeName[pt], got), c)
+				}
 			case opRemoveShard:
 				// Controller.Cleanup -> XDSUpdater.RemoveShard; the multicluster handler follows with a forced full push
 				e.idx.DeleteShard(shardKeys[op.Shard])
@@ -441,6 +462,33 @@ func (r *runner) runCase(c caseT) (nontrivial bool) {
 		}
 	}
 	return nontrivial
+}
+
+// reportSig / storedReport: a registry's report and what the endpoint index holds for that registry,
+// as sorted "address:port/health" lists.
+func reportSig(eps []epSpec) string {
+	var out []string
+	for _, e := range eps {
+		ie := e.istioEndpoint()
+		out = append(out, fmt.Sprintf("%s:%d/%d", ie.FirstAddressOrNil(), ie.EndpointPort, ie.HealthStatus))
+	}
+	sort.Strings(out)
+	return strings.Join(out, " ")
+}
+
+func storedReport(idx *model.EndpointIndex, shard int) string {
+	es, ok := idx.ShardsForService(svcHost, svcNS)
+	if !ok {
+		return ""
+	}
+	es.RLock()
+	defer es.RUnlock()
+	var out []string
+	for _, ie := range es.Shards[shardKeys[shard]] {
+		out = append(out, fmt.Sprintf("%s:%d/%d", ie.FirstAddressOrNil(), ie.EndpointPort, ie.HealthStatus))
+	}
+	sort.Strings(out)
+	return strings.Join(out, " ")
 }
 
 var pushTypeName = map[model.PushType]string{model.NoPush: "NoPush", model.IncrementalPush: "IncrementalPush", model.FullPush: "FullPush"}
@@ -575,19 +623,22 @@ func TestC13b(t *testing.T) {
 	res.Bounds["max_set_size"] = maxSize
 	res.Bounds["endpoint_sets"] = len(sets)
 	res.Bounds["transition_pairs"] = len(pairs)
-	res.Bounds["dims(dr,service,unhealthy_settings,history)"] = []int{len(drForms), len(flavours), len(featForms), len(sets) + len(pairs)}
+	res.Bounds["grow_histories"] = len(alpha)
+	res.Bounds["dims(dr,service,unhealthy_settings,history)"] = []int{len(drForms), len(flavours), len(featForms), len(sets) + len(pairs) + len(alpha)}
 	res.Bounds["views_per_step(proxies x clusters x {on-request,subscriber})"] = len(proxyForms) * len(clusterForms) * 2
-	total := int64(len(drForms)) * int64(len(flavours)) * int64(len(featForms)) * int64(len(sets)+len(pairs))
+	total := int64(len(drForms)) * int64(len(flavours)) * int64(len(featForms)) * int64(len(sets)+len(pairs)+len(alpha))
 	res.Bounds["cases_total"] = total
 
 	if !env.Thorough() {
 		res.Bounds["quick_restriction"] = "non-default unhealthy-endpoint switch settings only for histories that report an UnHealthy endpoint at some step; persistent-session services only for histories that report a draining endpoint at some step; node-local service only for histories that report an endpoint on node-b or from registry B at some step; everything else in full"
 	}
 	var cases, inTier, seq int64
-	engine.Product([]int{len(drForms), len(flavours), len(featForms), len(sets) + len(pairs)}, func(ord int64, idx []int) bool {
+	engine.Product([]int{len(drForms), len(flavours), len(featForms), len(sets) + len(pairs) + len(alpha)}, func(ord int64, idx []int) bool {
 		c := caseT{DR: idx[0], Fl: idx[1], Ft: idx[2]}
 		if h := idx[3]; h < len(sets) {
 			c.Kind, c.Set = "set", sets[h]
+		} else if h >= len(sets)+len(pairs) {
+			c.Kind, c.To = "grow", h-len(sets)-len(pairs)
 		} else {
 			p := pairs[h-len(sets)]
 			c.Kind, c.From, c.To, c.Companion = "pair", p.from, p.to, p.comp
